@@ -49,6 +49,23 @@ func (r *R) Fs(xs []float64) *R {
 	}
 	return r
 }
+// OwnFs / OwnIs record a slice the callee returned as a fresh result and then
+// overwrite it: the caller owns what it was handed, so a library that keeps
+// (or hands out twice) the storage behind a result shows up in the next call.
+func (r *R) OwnFs(xs []float64) *R {
+	r.Fs(xs)
+	for i := range xs {
+		xs[i] = -7.77e77
+	}
+	return r
+}
+func (r *R) OwnIs(xs []int) *R {
+	r.Is(xs)
+	for i := range xs {
+		xs[i] = -7
+	}
+	return r
+}
 func (r *R) Is(xs []int) *R {
 	r.I(len(xs))
 	for _, x := range xs {
